@@ -2,7 +2,9 @@ package engine
 
 import (
 	"fmt"
+	"path/filepath"
 	"sort"
+	"verifsim/ref"
 
 	"verifsim/simdisk"
 )
@@ -11,7 +13,7 @@ func init() {
 	Register(&Profile{Name: "io-faults", Prop: "C18", Weight: 10, Quick: 5000, Thorough: 100000, Fn: ioFaults})
 	SetMeta("C18", &Meta{
 		Level: "fault_enumeration",
-		Rule: "a scenario = (format, operation in {Create, Verify, Repair}, archive state) drawn from the tape; the operation is first run fault-free on a clone of the simulated disk to learn its I/O call sequence, then once per (call index, applicable fault kind) with that single fault injected on a fresh clone (exhaustive over call indices; thorough adds all pairs for short sequences and sampled pairs otherwise), followed by a fault-free rerun on the post-fault disk. evaluations = scenarios; distinct_nontrivial = distinct (format, operation, state class, number of I/O calls class) among scenarios in which every planned fault actually fired; counters.fault-injections = operations executed with a fault.",
+		Rule:  "a scenario = (format, operation in {Create, Verify, Repair}, archive state) drawn from the tape; the operation is first run fault-free on a clone of the simulated disk to learn its I/O call sequence, then once per (call index, applicable fault kind) with that single fault injected on a fresh clone (exhaustive over call indices; thorough adds all pairs for short sequences and sampled pairs otherwise), followed by a fault-free rerun on the post-fault disk. evaluations = scenarios; distinct_nontrivial = distinct (format, operation, state class, number of I/O calls class) among scenarios in which every planned fault actually fired; counters.fault-injections = operations executed with a fault.",
 		Assumptions: []string{
 			"I/O faults exist only at gopar's fileIO seam on the simulated disk; injected errors are EIO/ENOSPC PathErrors, never not-exist",
 			"torn-write semantics: the target holds a prefix of the new data (or is truncated to zero, or is complete with a late error); no other file is touched by the disk itself",
@@ -113,6 +115,46 @@ func ioFaults(r *Run) {
 					kinds = append(kinds, "backup-copy")
 				}
 			}
+		}
+		if par1Set && t.Bool(1, 5, "foreign-writer-unsaved-entry") {
+			// the set as another PAR1 client would have written it, with an
+			// entry that is listed but not saved in the volume set (status
+			// bit 0 clear) whose file lies beside the set
+			var files []ref.Par1File
+			var datas [][]byte
+			for _, f := range w.Files {
+				files = append(files, ref.Par1File{Name: f.Name, Data: f.Data, Status: 1})
+				datas = append(datas, f.Data)
+			}
+			extra := ref.Par1File{Name: "listed-only.txt", Data: expandContent(ckText, t.Draw64(0, "extra-seed"), 10+t.Draw(200, "extra-len"), 4), Status: 0}
+			at := t.Draw(len(files)+1, "extra-pos")
+			files = append(files[:at], append([]ref.Par1File{extra}, files[at:]...)...)
+			w.Disk.Put(filepath.Join(w.Dir, extra.Name), extra.Data)
+			w.Bystanders[filepath.Join(w.Dir, extra.Name)] = extra.Data
+			for p := range w.Created {
+				if _, ok := w.Disk.Get(p); !ok {
+					continue
+				}
+				var nb []byte
+				if p == w.Index {
+					nb = ref.BuildPar1(files, 0, nil)
+				} else {
+					v := 0
+					for k := 1; k <= w.R; k++ {
+						if w.VolumePath(k) == p {
+							v = k
+						}
+					}
+					if v == 0 {
+						continue
+					}
+					nb = ref.BuildPar1(files, uint64(v), ref.Par1Parity(datas, v))
+				}
+				w.Disk.Put(p, nb)
+				w.Created[p] = nb
+			}
+			kinds = append(kinds, "unsaved-entry")
+			r.Probe("par1-listed-but-unsaved-entry")
 		}
 		sort.Strings(kinds)
 		stateClass = fmt.Sprint(uniq(kinds))
